@@ -122,6 +122,19 @@ CLAIMED['C16'] = dict(
           "asin/sin round trips under the stated ranges."),
     ref="DESIGN.md section 4 C16")
 
+CLAIMED['C11'] = dict(
+    technique="Coq proof by reflection: a verified dimension checker (dim_sound) decides homogeneity of every regenerated hook formula by vm_compute; scaled twin runs as supporting evidence",
+    text=("dim_sound (proved once, for all expressions, all k>0, all environments): if the checker computes exponent d for a formula, "
+          "scaling every variable by k^(its exponent) scales the value by k^d. On every run the checker is evaluated inside Coq on all "
+          "hook implementations regenerated from the source against a hand-written table of length exponents (forallb ... = true by "
+          "vm_compute), which yields the scaling law for each of them; the relative convergence test is proved scale free. A "
+          "dimensionally wrong edit or an absolute tolerance inside a formula makes the computation return false. Groove solvers, "
+          "geometry-valued implementations, tolerances inside numpy/shapely calls and the propagation through a whole solve are covered "
+          "by scaled twin runs only (partial)."),
+    note=("Trusted: Coq kernel; Reals axioms; translator T-A (mock-validated); the hand-written dimension table; floats abstracted to R. "
+          "Known finding: astm_grain_size_number is unit-bound by design."),
+    ref="DESIGN.md section 4 C11")
+
 NOT_YET = {}
 
 
